@@ -54,6 +54,40 @@ fn stream_compress_async(c: Compression, data: &[u8], chunks: &[usize], flush_ea
         Ok(out)
     })
 }
+/// the same through a buffering sink (64 KiB BufWriter in front of the destination): sync - write, flush, drop the
+/// adapter, drop the BufWriter; async - write, close the adapter, then look at the destination WITHOUT touching the
+/// BufWriter again (closing the adapter closes, and therefore flushes, the writer it was given)
+fn stream_compress_buffered(c: Compression, data: &[u8], chunk: usize, is_async: bool) -> Out<Vec<u8>> {
+    call(|| {
+        let mut dest = Vec::new();
+        if is_async {
+            let mut bw = futures::io::BufWriter::with_capacity(1 << 16, &mut dest);
+            {
+                let mut w = compress_async(c, &mut bw)?;
+                for ch in data.chunks(chunk.max(1)) {
+                    block_on(w.write_all(ch))?;
+                }
+                block_on(w.close())?;
+            }
+            let seen = bw.get_ref().to_vec();
+            drop(bw);
+            Ok(seen)
+        } else {
+            {
+                let mut bw = std::io::BufWriter::with_capacity(1 << 16, &mut dest);
+                {
+                    let mut w = compress(c, &mut bw)?;
+                    for ch in data.chunks(chunk.max(1)) {
+                        w.write_all(ch)?;
+                    }
+                    w.flush()?;
+                }
+            }
+            Ok(dest)
+        }
+    })
+}
+
 fn stream_decompress_sync(c: Compression, packed: &[u8], bufsize: usize) -> Out<Vec<u8>> {
     call(|| {
         let mut src = std::io::Cursor::new(packed);
@@ -140,6 +174,22 @@ pub fn check_input_modes(c: Compression, data: &[u8], chunkings: &[Vec<usize>], 
         Out::Ok(d) if d == data => {}
         o => bad.push((format!("decode-upstream/{n}"), format!("decompress_all(upstream stream) = {}", o.describe()))),
     }
+    // streaming writers into a buffering sink
+    for (api, is_async) in [("sync", false), ("async", true)] {
+        for chunk in [data.len().max(1), 5] {
+            if data.len() / chunk > 20_000 {
+                continue;
+            }
+            match stream_compress_buffered(c, data, chunk, is_async) {
+                Out::Ok(p) => {
+                    if let Some(m) = standard_stream(c, &p, data) {
+                        bad.push((format!("stream-write-buffered-sink/{n}/{api}"), format!("{chunk}-byte chunks into a BufWriter: {} bytes reached the destination: {m}", p.len())));
+                    }
+                }
+                o => bad.push((format!("stream-write-buffered-sink-{}/{n}/{api}", o.kind()), o.describe())),
+            }
+        }
+    }
     // streaming writers
     for ch in chunkings {
         for flush_each in flush_modes.iter().copied() {
@@ -194,7 +244,7 @@ fn compositions(n: usize) -> Vec<Vec<usize>> {
 pub fn run(tier: &str) -> i32 {
     let rep = Report::new("C14", tier, "exploration");
     let thorough = rep.thorough();
-    rep.rule("byte strings: empty, all 256 single bytes, all strings over {00,FF,41} up to length 6, three 12-byte strings, the codecs' magic numbers and header prefixes, real streams of every codec as payload (whole, doubled, cut after 3/4/10 bytes), zeros and a fixed xorshift stream at lengths {4095,4096,4097,65535,65536,2^20+1[,5*2^20]}, the repository's data.json; x 4 codecs x {compress_all/decompress_all, compress writer fed in chunks (with and without a flush after every chunk) + flush + drop, decompress reader drained in chunks, async twins with close}; ALL write-split compositions for inputs <= 12 bytes, fixed chunk sizes {1,2,7,4096,65537} for long ones; oracle: round trip, upstream crates called directly decode the output with clean end of stream, gzip output also by the harness's own inflate+CRC-32+ISIZE; 'unknown' is an error from all six functions; non-trivial = non-empty inputs");
+    rep.rule("byte strings: empty, all 256 single bytes, all strings over {00,FF,41} up to length 6, three 12-byte strings, the codecs' magic numbers and header prefixes, real streams of every codec as payload (whole, doubled, cut after 3/4/10 bytes), zeros and a fixed xorshift stream at lengths {4095,4096,4097,65535,65536,2^20+1[,5*2^20]}, the repository's data.json; x 4 codecs x {compress_all/decompress_all, compress writer fed in chunks (with and without a flush after every chunk) + flush + drop, the same into a 64 KiB BufWriter (async: destination inspected right after close), decompress reader drained in chunks, async twins with close}; ALL write-split compositions for inputs <= 12 bytes, fixed chunk sizes {1,2,7,4096,65537} for long ones; oracle: round trip, upstream crates called directly decode the output with clean end of stream, gzip output also by the harness's own inflate+CRC-32+ISIZE; 'unknown' is an error from all six functions; non-trivial = non-empty inputs");
     rep.assume("harness/src/spec/inflate.rs is the 'unrelated implementation' for gzip");
     let bufs_small = [1usize, 2, 7, 4096];
     // short strings with all compositions
